@@ -8,7 +8,7 @@ use rust_cc::*;
 use rust_cc::cleaners::Cleaner;
 #[cfg(feature = "weak-ptrs")]
 use rust_cc::weak::Weak;
-use std::cell::RefCell;
+use std::cell::{Cell, RefCell};
 use std::sync::atomic::{AtomicU32, Ordering};
 use vcommon::alloc::{self as valloc, MonAlloc};
 use vcommon::report::{Args, Report};
@@ -77,6 +77,124 @@ thread_local! {
     static USER_WEAK: RefCell<Vec<Weak<TNode>>> = const { RefCell::new(Vec::new()) };
 }
 
+/// What the user's own thread-local destructor does when it runs (possibly after the collector's thread-locals are gone):
+/// ordinary public operations, which must neither crash nor leave the collector state wrong.
+pub const LATES: [&str; 6] = ["none", "collect", "alloc", "cfg_alloc", "weak", "cleaner"];
+
+struct Late {
+    action: Cell<usize>,
+}
+thread_local! {
+    static LATE: Late = const { Late { action: Cell::new(0) } };
+}
+
+fn oracle_fail(msg: &str) -> ! {
+    eprintln!("TEARDOWN-ORACLE {}", msg);
+    std::process::abort();
+}
+
+fn not_tracing(at: &str) {
+    // outside of every collection none of the phase flags may read true (an Err = state already destroyed is fine)
+    if let Ok(true) = state::is_tracing() {
+        oracle_fail(&format!("state::is_tracing() reads true outside of a collection ({})", at));
+    }
+}
+
+fn small_churn() {
+    let a = node();
+    let b = node();
+    *a.next.borrow_mut() = Some(b.clone());
+    *b.next.borrow_mut() = Some(a.clone());
+    let c = a.clone();
+    drop(c);
+    if a.strong_count() != 2 || b.strong_count() != 2 {
+        oracle_fail("strong counts wrong in a late destructor");
+    }
+    drop(a);
+    drop(b);
+}
+
+impl Drop for Late {
+    fn drop(&mut self) {
+        let what = LATES[self.action.get() % LATES.len()];
+        match what {
+            "collect" => {
+                collect_cycles();
+                not_tracing("after collect_cycles in a late destructor");
+                small_churn();
+                collect_cycles();
+                not_tracing("after the second collect_cycles in a late destructor");
+                let u = node();
+                match u.try_unwrap() {
+                    Ok(n) => drop(n),
+                    Err(_) => oracle_fail("try_unwrap of a fresh unique Cc refused in a late destructor"),
+                }
+            }
+            "alloc" | "cfg_alloc" => {
+                for _ in 0..3 {
+                    small_churn();
+                }
+                let keep = node();
+                let k2 = keep.clone();
+                drop(k2);
+                drop(keep);
+                not_tracing("after allocations in a late destructor");
+            }
+            "weak" => {
+                #[cfg(feature = "weak-ptrs")]
+                {
+                    let a = node();
+                    let w = a.downgrade();
+                    let up = w.upgrade();
+                    if up.is_none() || w.strong_count() != 2 {
+                        oracle_fail("upgrade / strong_count wrong in a late destructor");
+                    }
+                    drop(up);
+                    drop(a);
+                    if w.upgrade().is_some() {
+                        oracle_fail("upgrade of a dead object succeeded in a late destructor");
+                    }
+                    let c = Cc::new_cyclic(|w: &Weak<TNode>| {
+                        let id = NEXT.fetch_add(1, Ordering::SeqCst) as usize % MAXOBJ;
+                        DROPS[id].store(0, Ordering::SeqCst);
+                        TNode {
+                            canary: MAGIC ^ id as u64,
+                            id,
+                            next: RefCell::new(None),
+                            me: RefCell::new(Some(w.clone())),
+                            #[cfg(feature = "cleaners")]
+                            cleaner: Cleaner::new(),
+                        }
+                    });
+                    drop(c);
+                }
+            }
+            "cleaner" => {
+                #[cfg(feature = "cleaners")]
+                {
+                    let a = node();
+                    let id = a.id;
+                    let c1 = a.cleaner.register(move || {
+                        ACTIONS[id].fetch_add(1, Ordering::SeqCst);
+                    });
+                    let _c2 = a.cleaner.register(move || {
+                        ACTIONS[id].fetch_add(1, Ordering::SeqCst);
+                    });
+                    c1.clean();
+                    drop(a);
+                    if ACTIONS[id].load(Ordering::SeqCst) != 2 {
+                        oracle_fail("cleaning actions did not run exactly once each in a late destructor");
+                    }
+                }
+            }
+            _ => {}
+        }
+        if what != "none" {
+            eprintln!("LATE-RAN {}", what);
+        }
+    }
+}
+
 /// Fixed-size id list (no allocation under the crate tag that another thread would release).
 #[derive(Default, Clone, Copy)]
 struct Ids {
@@ -100,11 +218,15 @@ pub const ORDERS: [&str; 2] = ["user_first", "collector_first"];
 
 /// Sets the scene on the current thread; returns the ids involved. `order` decides which thread-local is
 /// registered (first touched) first, hence destroyed last.
-fn scene(order: &str, obj: &str) -> Ids {
+fn scene(order: &str, obj: &str, late: &str) -> Ids {
     #[cfg(feature = "auto-collect")]
     let _ = rust_cc::config::config(|c| c.set_auto_collect(false));
+    let late_idx = LATES.iter().position(|l| *l == late).unwrap_or(0);
     if order == "user_first" {
         // user's thread-local registered first => destroyed after the collector's
+        if late_idx != 0 {
+            LATE.with(|l| l.action.set(late_idx));
+        }
         USER.with(|u| u.borrow_mut().reserve(4));
         #[cfg(feature = "weak-ptrs")]
         USER_WEAK.with(|u| u.borrow_mut().reserve(4));
@@ -116,6 +238,18 @@ fn scene(order: &str, obj: &str) -> Ids {
         a.mark_alive();
         collect_cycles();
         drop(a);
+        if late_idx != 0 {
+            LATE.with(|l| l.action.set(late_idx));
+        }
+    }
+    #[cfg(feature = "auto-collect")]
+    if late == "cfg_alloc" {
+        // automatic collection stays on with a buffered-objects threshold: every Cc::new of the late destructor
+        // evaluates the trigger condition
+        let _ = rust_cc::config::config(|c| {
+            c.set_auto_collect(true);
+            c.set_buffered_objects_threshold(std::num::NonZeroUsize::new(1));
+        });
     }
     let mut ids = Ids::default();
     match obj {
@@ -192,6 +326,7 @@ fn applicable(obj: &str) -> bool {
     match obj {
         "weak" => cfg!(feature = "weak-ptrs"),
         "cleaner" => cfg!(feature = "cleaners"),
+        "cfg_alloc" => cfg!(feature = "auto-collect"),
         _ => true,
     }
 }
@@ -199,7 +334,7 @@ fn applicable(obj: &str) -> bool {
 fn thread_cell(rep: &mut Report, order: &'static str, obj: &'static str) {
     let ids = std::thread::spawn(move || {
         valloc::set_tag(valloc::TAG_CRATE);
-        scene(order, obj)
+        scene(order, obj, "none")
     }).join();
     let name = format!("thread/{}/{}", order, obj);
     rep.evaluations += 1;
@@ -238,11 +373,24 @@ fn main() {
     // a cell played by the main thread of this very process: the exit status is the observation
     if let Some(cell) = args.get("--main-cell") {
         let mut it = cell.split('/');
-        let (order, obj) = (it.next().unwrap_or(""), it.next().unwrap_or(""));
+        let (order, obj, late) = (it.next().unwrap_or(""), it.next().unwrap_or(""), it.next().unwrap_or("none"));
         let order: &'static str = ORDERS.iter().find(|o| **o == order).copied().unwrap_or("user_first");
         let obj: &'static str = OBJS.iter().find(|o| **o == obj).copied().unwrap_or("unique");
+        let late: &'static str = LATES.iter().find(|o| **o == late).copied().unwrap_or("none");
+        if args.flag("--in-thread") {
+            // the cell is played by a spawned thread of this process; a panic / abort in its thread-local destructors
+            // takes the process down, which is the observation
+            let r = std::thread::spawn(move || {
+                valloc::set_tag(valloc::TAG_CRATE);
+                let _ = scene(order, obj, late);
+            }).join();
+            if r.is_err() {
+                oracle_fail("the exiting thread panicked");
+            }
+            return;
+        }
         valloc::set_tag(valloc::TAG_CRATE);
-        let _ = scene(order, obj);
+        let _ = scene(order, obj, late);
         if !args.flag("--quiet") {
             let mut rep = Report::new();
             rep.evaluations = 1;
@@ -269,25 +417,53 @@ fn main() {
                     thread_cell(&mut rep, order, obj);
                 }
             }
-            // main-thread cells as child processes (not under Miri: no process spawning there)
-            let mname = format!("main/{}/{}", order, obj);
-            if !args.flag("--no-children") && only.as_ref().map_or(true, |o| *o == mname) {
-                let exe = std::env::current_exe().unwrap();
-                match std::process::Command::new(exe).args(["--main-cell", &format!("{}/{}", order, obj), "--quiet"]).output() {
-                    Ok(out) => {
-                        rep.evaluations += 1;
-                        rep.set_add("cells", mname.clone());
-                        rep.count("child_processes", 1);
-                        if !out.status.success() {
-                            let err = String::from_utf8_lossy(&out.stderr);
-                            rep.viol("C19", "teardown_main_exit", &format!("C19:teardown_main_exit:{}", mname), &format!("child exited with {:?}: {}", out.status, err.chars().take(400).collect::<String>()), &["--only".into(), mname.clone()]);
-                        } else {
-                            let mut h = vcommon::rng::Fnv::new();
-                            h.str(&mname);
-                            rep.nontrivial(h.finish());
-                        }
+            // cells played by child processes: the main thread returning, or a spawned thread exiting, with every
+            // kind of late user destructor (not under Miri: no process spawning there)
+            if args.flag("--no-children") {
+                continue;
+            }
+            for late in LATES {
+                if !applicable(late) {
+                    continue;
+                }
+                for in_thread in [false, true] {
+                    if in_thread && late == "none" {
+                        continue; // that is the in-process thread cell above
                     }
-                    Err(e) => rep.inconclusive(format!("could not spawn child: {}", e)),
+                    let mname = format!("{}/{}/{}/{}", if in_thread { "tchild" } else { "main" }, order, obj, late);
+                    if !only.as_ref().map_or(true, |o| *o == mname) {
+                        continue;
+                    }
+                    let exe = std::env::current_exe().unwrap();
+                    let mut cmd = std::process::Command::new(exe);
+                    cmd.args(["--main-cell", &format!("{}/{}/{}", order, obj, late), "--quiet"]);
+                    if in_thread {
+                        cmd.arg("--in-thread");
+                    }
+                    match cmd.output() {
+                        Ok(out) => {
+                            rep.evaluations += 1;
+                            rep.set_add("cells", mname.clone());
+                            rep.count("child_processes", 1);
+                            let err = String::from_utf8_lossy(&out.stderr);
+                            if late != "none" {
+                                if err.contains("LATE-RAN") {
+                                    rep.count("late_destructors_observed", 1);
+                                    rep.set_add("late_kinds_observed", format!("{}/{}", order, late));
+                                } else {
+                                    rep.count("late_destructors_not_run", 1);
+                                }
+                            }
+                            if !out.status.success() {
+                                rep.viol("C19", "teardown_main_exit", &format!("C19:teardown_main_exit:{}", mname), &format!("child exited with {:?}: {}", out.status, err.chars().take(400).collect::<String>()), &["--only".into(), mname.clone()]);
+                            } else {
+                                let mut h = vcommon::rng::Fnv::new();
+                                h.str(&mname);
+                                rep.nontrivial(h.finish());
+                            }
+                        }
+                        Err(e) => rep.inconclusive(format!("could not spawn child: {}", e)),
+                    }
                 }
             }
         }
